@@ -119,6 +119,10 @@ type Store struct {
 	// non-nil error denies the request.
 	Admission func(verb string, o *unstructured.Unstructured) error
 
+	// Reject, if set, is the API server's validation of an object about to be stored by a
+	// create / update / patch: true = 422 Invalid (nothing is stored).
+	Reject func(obj map[string]any) bool
+
 	Namespaced map[schema.GroupKind]bool
 	indexes    map[string]Indexer // key: GK|field
 
@@ -338,6 +342,9 @@ func (s *Store) validate(m map[string]any, gk schema.GroupKind) error {
 	if controllerCount(m) > 1 {
 		return kerrors.NewInvalid(gk, strOf(mdOf(m), "name"), nil)
 	}
+	if s.Reject != nil && s.Reject(m) {
+		return kerrors.NewInvalid(gk, strOf(mdOf(m), "name"), nil)
+	}
 	return nil
 }
 
@@ -500,6 +507,7 @@ func (s *Store) Clone() *Store {
 	}
 	n.KeepHistory = s.KeepHistory
 	n.Admission = s.Admission
+	n.Reject = s.Reject
 	return n
 }
 
